@@ -266,7 +266,7 @@ Definition format_record (st : rp_state) (r : record) : res (rp_state * str) :=
   do w1 <- update_widths (rp_widths st) d;
   let order1 := rp_order st ++ new_columns (rp_order st) d in
   match d with
-  | [] => Ok (mkRP w1 order1 (rp_term st), trim_end (rraw r))      (* a row without fields: its line, wherever it stands (fix KF-56) *)
+  | [] => Ok (mkRP w1 order1 (rp_term st), strip_eol (rraw r))      (* a row without fields: its line, wherever it stands (fixes 8041d2a, 7f51c1d) *)
   | _ =>
       do reset <- (if overflows_term (rp_term st) w1
                    then do w2 <- update_widths [] d; Ok (w2, new_columns [] d, overflows_term (rp_term st) w2)
